@@ -431,6 +431,16 @@ func shortQual(s string) string {
 	return s
 }
 
+// fullStr renders a node on one line without truncation.
+func fullStr(fset *token.FileSet, e ast.Node) string {
+	if e == nil {
+		return ""
+	}
+	var sb strings.Builder
+	_ = printerFprint(&sb, fset, e)
+	return strings.Join(strings.Fields(sb.String()), " ")
+}
+
 func exprStr(fset *token.FileSet, e ast.Node) string {
 	if e == nil {
 		return ""
